@@ -123,6 +123,7 @@ structure Sem (V : Type) where
   isErr : V → Bool
   /-- `arg.Type == ArgMatrix && len(arg.Matrix) > 0 && len(arg.Matrix[0]) > 0` ↦ `arg.Matrix[0][0]` -/
   matHead : V → Option V
+  /-- `newArrayConstFormulaArg`: the argument an array constant denotes (a matrix; #VALUE! when its rows differ in length) -/
   mkMatrix : List (List V) → V
   /-- the error argument built from a failed `calculate` inside a function -/
   errArg : V
